@@ -11,6 +11,7 @@ import (
 	"time"
 
 	"github.com/filecoin-project/go-f3/gpbft"
+	"github.com/filecoin-project/go-f3/internal/verif/vfix"
 	"github.com/filecoin-project/go-f3/sim/signing"
 )
 
@@ -76,7 +77,7 @@ func (h *host) GetProposal(_ context.Context, instance uint64) (*gpbft.Supplemen
 	h.bases[instance] = base
 	h.started = true
 	s.mon.onProposal(h.idx, instance, chain)
-	supp := s.w.supp
+	supp := s.suppOf(h.idx)
 	return &supp, chain, nil
 }
 
@@ -86,7 +87,7 @@ func (h *host) GetCommittee(_ context.Context, instance uint64) (*gpbft.Committe
 		return nil, fmt.Errorf("no committee for instance %d", instance)
 	}
 	pt := s.w.newPowerTable()
-	agg, err := s.backend.Aggregate(pt.Entries.PublicKeys())
+	agg, err := s.aggregate(pt.Entries.PublicKeys())
 	if err != nil {
 		return nil, err
 	}
@@ -139,7 +140,7 @@ func (h *host) Verify(pk gpbft.PubKey, msg, sig []byte) error {
 	return h.sys.backend.Verify(pk, msg, sig)
 }
 func (h *host) Aggregate(pks []gpbft.PubKey) (gpbft.Aggregate, error) {
-	return h.sys.backend.Aggregate(pks)
+	return h.sys.aggregate(pks)
 }
 
 // System is one execution: real participants plus the harness network / clocks / adversary.
@@ -180,6 +181,20 @@ func msgStr(m *gpbft.GMessage) string {
 		j = fmt.Sprintf("/J(%s,%d,%s)", m.Justification.Vote.Phase, m.Justification.Vote.Round, chainStr(m.Justification.Vote.Value))
 	}
 	return fmt.Sprintf("%s(i%d,r%d,%s)%s", m.Vote.Phase, m.Vote.Instance, m.Vote.Round, chainStr(m.Vote.Value), j)
+}
+
+// suppOf is the supplemental data participant i expects (a participant may have a diverging view).
+func (s *System) suppOf(i int) gpbft.SupplementalData {
+	supp := s.w.supp
+	if s.w.sc.oddSupp(i) {
+		supp.Commitments[0] = 0xdd
+	}
+	return supp
+}
+
+// aggregate: the signing scheme's aggregates are bound to the complete key set (BDN-like), see vfix.KeySetBound.
+func (s *System) aggregate(pks []gpbft.PubKey) (gpbft.Aggregate, error) {
+	return vfix.KeySetBound{Inner: s.backend}.Aggregate(pks)
 }
 
 // enqueueAll schedules one delivery per honest participant, the sender first.
@@ -646,11 +661,12 @@ func (s *System) deliver(rec *msgRec, to int) {
 func (s *System) done() (string, bool) {
 	all := true
 	for _, i := range s.w.sc.Honest() {
-		if !s.hosts[i].finished {
+		if !s.hosts[i].finished && !s.w.sc.oddSupp(i) {
 			all = false
 		}
 	}
-	if all {
+	if all && (len(s.w.sc.OddSupp) == 0 || len(s.queue) == 0) {
+		// participants with a diverging view cannot decide; the run ends once everything sent has reached them
 		return "all-decided", true
 	}
 	if s.events >= s.mode.Horizon {
